@@ -426,6 +426,68 @@ def _filled_completely(ctx, unit: Unit, cfg: CFG, lname: str) -> Optional[str]:
     return None
 
 
+def _handed_to_generator(ctx, unit: Unit, e: Optional[ast.AST], n: Node, src: str):
+    """``g(x, ...)`` with g a library async generator and some argument mentioning src: [(g, parameter name)]; None if ``e``
+    is not such a call"""
+    if not isinstance(e, ast.Call):
+        return None
+    out = []
+    for f in ctx.vals.expr(unit, e.func, n):
+        g = ctx.pkg.lib_unit(f[1]) if f[0] == "libfn" else None
+        if g is None or g.kind != "asyncgen":
+            return None
+        names = g.param_names()
+        va = g.node.args.vararg.arg if g.node.args.vararg else None
+        for i, a in enumerate(e.args):
+            inner = a.value if isinstance(a, ast.Starred) else a
+            if _expr_mentions(ctx, unit, inner, n, src):
+                pn = va if (isinstance(a, ast.Starred) or i >= len(names)) else names[i]
+                if pn is None:
+                    return None
+                out.append((g, pn))
+    return out or None
+
+
+class _Recorder:
+    """a context that records instead of reporting (to ask "would the rule hold for this unit?")"""
+    def __init__(self, ctx):
+        self._ctx, self.failed = ctx, 0
+
+    def __getattr__(self, name):
+        return getattr(self._ctx, name)
+
+    def ok(self, *a, **k):
+        return None
+
+    def count(self, *a, **k):
+        return None
+
+    def note(self, *a, **k):
+        return None
+
+    def fail(self, *a, **k):
+        self.failed += 1
+
+    def check(self, cond, *a, **k):
+        if not cond:
+            self.failed += 1
+        return cond
+
+
+def _releases_param(ctx, g: Unit, pname: str) -> bool:
+    memo = ctx.__dict__.setdefault("_releases_param", {})
+    key = (id(g.node), pname)
+    if key not in memo:
+        memo[key] = True  # (recursion: assume, then verify)
+        rec = _Recorder(ctx)
+        try:
+            check_param(rec, "R04.1", g, pname, f"{g.short}:{pname}")
+        except AnalysisError:
+            rec.failed += 1
+        memo[key] = rec.failed == 0
+    return memo[key]
+
+
 def closing_context_class(ctx, info) -> bool:
     """A library context manager class whose ``__aexit__`` closes every element of the container its constructor was
     given (``async with Closing(iterators): ...`` stands for the try/finally with the closing loop)."""
@@ -464,7 +526,16 @@ def close_nodes(ctx, unit: Unit, cfg: CFG, src: str, findings: List[Tuple[Node, 
             cm = n.info.get("cm")
             v = ctx.vals.expr(unit, cm, n)
             if any(a[0] == "scoped" for a in v) and _expr_mentions(ctx, unit, cm, n, src):
-                out.add(n)
+                # the scope closes what it was given; if that is a library generator that was handed the iterators, closing
+                # it releases them only if that generator releases what it is handed (``zip`` does, its inner generators do not)
+                inner = cm.args[0] if isinstance(cm, ast.Call) and len(cm.args) == 1 else None
+                handed = _handed_to_generator(ctx, unit, inner, n, src)
+                if handed is None or all(_releases_param(ctx, g, pn) for g, pn in handed):
+                    out.add(n)
+                else:
+                    g, pn = next((g, pn) for g, pn in handed if not _releases_param(ctx, g, pn))
+                    findings.append((n, f"the scope closes the library generator `{g.short}`, which does not close what it is handed "
+                                        f"through `{pn}`: the iterators of the argument stay open"))
             elif isinstance(cm, ast.Call) and len(cm.args) == 1 and not cm.keywords and v \
                     and all(a[0] == "libinst" and ctx.pkg.lib_class(a[1]) is not None
                             and closing_context_class(ctx, ctx.pkg.lib_class(a[1])) for a in v):
